@@ -625,8 +625,54 @@ fn string_regs(rng: &mut Rng, cx: u16) -> Regs {
     r
 }
 
+/// as run_string, for a prefix / instruction pairing the interpreter reads but the assembler never writes (`rep cmps`,
+/// `rep scas`): the line is the one emitted for `stand_in` with its prefix word replaced
+pub fn run_string_direct(asm: &Asm, mach: &mut Mach, ins: &Ins, stand_in: &Ins, prefix: &str, regs: &Regs, flags: u16, seed: i64, memset: &[(usize, u8)]) -> Vec<Value> {
+    let mut evs = Vec::new();
+    if let Ok((mut a, idx, src)) = assemble_ins(asm, stand_in, &Spelling::default()) {
+        let emitted = a.out.code[idx].clone();
+        let rest = emitted.splitn(2, ' ').nth(1).unwrap_or("").to_string();
+        let line = format!("{} {}", prefix, rest);
+        evs.push(mach.reset(regs, flags, seed, memset, &[]));
+        let cap = regs.cx as usize + 3;
+        for k in 0..cap {
+            let o = mach.step(idx, &mut a.ictx, &line);
+            let again = o.out == "REPEAT";
+            let mut ev = o.to_json();
+            ev["ev"] = json!("step");
+            ev["ast"] = ins.to_json();
+            ev["idx"] = json!(idx);
+            ev["line"] = json!(line);
+            ev["src"] = json!(if k == 0 { src.clone() } else { String::new() });
+            evs.push(ev);
+            if !again {
+                return evs;
+            }
+        }
+        evs.push(json!({"ev":"nonterminating","ast":ins.to_json(),"line":line,"invocations":cap}));
+    }
+    evs
+}
+
 pub fn gen_c07(asm: &Asm, mach: &mut Mach, rng: &mut Rng, sh: &mut Shards, thorough: bool) {
     let mut n: u64 = 0;
+    // a plain REP in front of a comparing instruction, given to the interpreter directly: the body runs exactly CX times
+    for op in ["cmps", "scas"] {
+        for w in [8u8, 16u8] {
+            for df in [0u16, 1] {
+                for cx in 0..=6u16 {
+                    let ins = Ins::Str { op, w, rep: "rep", repmn: "rep" };
+                    let stand_in = Ins::Str { op, w, rep: "repz", repmn: "repe" };
+                    let regs = string_regs(rng, cx);
+                    let flags = (rng.u16() & !0x0400) | (df << 10);
+                    let evs = run_string_direct(asm, mach, &ins, &stand_in, "rep", &regs, flags, (n % 251) as i64, &[]);
+                    sh.count("rep-compare-direct", 1);
+                    sh.unit(&evs);
+                    n += 1;
+                }
+            }
+        }
+    }
     let cxmax: u16 = 64;
     // every mnemonic x width x DF x prefix x CX 0..64
     for (op, rep, repmn) in STR_COMBOS {
@@ -1052,6 +1098,12 @@ pub fn gen_macros(_asm: &Asm, sh: &mut Shards, path: &str, workdir: &str) {
                 cases.push(json!({"lib":[{"name":"named","params":params,"body":body}],"use":{"name":"named","args":args},"err":"","code":code}).to_string());
             }
         }
+        // (names are case-sensitive: a parameter and a body word, or two parameters, that differ only in letter case)
+        if special == "Q" {
+            cases.push(json!({"lib":[{"name":"cp","params":["x","X"],"body":[{"k":"ins","toks":["mov","x",",","X"]}]}],"use":{"name":"cp","args":[["ax"],["bx"]]},"err":"","code":[["mov","ax",",","bx"]]}).to_string());
+            cases.push(json!({"lib":[{"name":"cq","params":["Val","val","VAL"],"body":[{"k":"ins","toks":["mov","ax",",","val"]},{"k":"ins","toks":["mov","cx",",","VAL"]},{"k":"ins","toks":["mov","dx",",","Val"]}]}],"use":{"name":"cq","args":[["1"],["2"],["3"]]},"err":"","code":[["mov","ax",",","2"],["mov","cx",",","3"],["mov","dx",",","1"]]}).to_string());
+            cases.push(json!({"lib":[{"name":"cr","params":["T"],"body":[{"k":"ins","toks":["mov","ax",",","T"]},{"k":"ins","toks":["jmp","t"]}]}],"use":{"name":"cr","args":[["5"]]},"err":"","code":[["mov","ax",",","5"],["jmp","t"]]}).to_string());
+        }
         // the parameter as a jump target and as a register
         cases.push(json!({"lib":[{"name":"go","params":[special],"body":[{"k":"ins","toks":["inc", special]}]}],"use":{"name":"go","args":[["bx"]]},"err":"","code":[["inc","bx"]]}).to_string());
     }
@@ -1205,8 +1257,9 @@ fn step_event(o: StepObs, vm: usize, ast: &Value, idx: usize, line: &str) -> Val
 
 pub fn gen_c19(asm: &Asm, rng: &mut Rng, sh: &mut Shards, path: &str, thorough: bool) {
     // a freshly created machine
-    for _ in 0..3 {
-        let vm = emulator_8086_lib::VM::new();
+    for k in 0..4 {
+        // (a machine is a machine however it is made: VM::new() and the Default trait)
+        let vm = if k % 2 == 0 { emulator_8086_lib::VM::new() } else { Default::default() };
         let nz = vm.mem.iter().filter(|b| **b != 0).count();
         sh.count("newvm", 1);
         sh.unit(&[json!({"ev":"newvm","regs":read_regs(&vm).to_json(),"flags":vm.arch.flag,"nonzero":nz})]);
@@ -1424,6 +1477,17 @@ fn fuzz_case(seed: u64, k: usize) -> (&'static str, Vec<u8>) {
     ];
     let data_lines: [&str; 6] = ["set 5", "db 7", "db [0 , 3]", "dw \"ab\"", "dw -5", "db [300]"];
     let code_lines: [&str; 10] = ["mov ax,word y", "add al, byte [bx,si,0]", "rep movs byte", "jmp l", "print reg", "int 33", "xchg word es:[bx] ,ax", "sal byte [0],255", "ret", "lea ax , word [bp,2]"];
+    // lines naming labels of every kind in every role (the context of fuzz_one holds data labels x, y, code labels l,
+    // start and the procedure f): the first cases are these lines as they are, later ones are mutated
+    let role_lines: [&str; 26] = ["mov ax,word l", "inc word start", "push word l", "pop word start", "mov al,byte l", "not byte start", "add word l,1", "sal word start,cl",
+        "mov es,word l", "xchg word l ,ax", "lea bx,word l", "mul byte start", "jmp y", "jz x", "loop y", "call y", "call l", "call start", "jmp f", "call nosuch", "jmp nosuch",
+        "mov ax,word nosuch", "mov al,byte nosuch", "mov ax,word f", "jcxz f", "cmp word y,word x"];
+    if k < role_lines.len() {
+        return ("interp", role_lines[k].as_bytes().to_vec());
+    }
+    if rng.below(6) == 0 {
+        return ("interp", crate::checks3::mutate_bytes(rng.pick(&role_lines).as_bytes(), &mut rng));
+    }
     match rng.below(3) {
         0 => ("pre", crate::checks3::mutate_bytes(rng.pick(&programs).as_bytes(), &mut rng)),
         1 => ("data", crate::checks3::mutate_bytes(rng.pick(&data_lines).as_bytes(), &mut rng)),
@@ -1448,6 +1512,11 @@ fn fuzz_one(parser: &str, input: &[u8], asm: &Asm, mach: &mut Mach) -> &'static 
             let mut ctx = emulator_8086_lib::InterpreterContext::default();
             ctx.call_stack = vec![1];
             ctx.fn_map.insert("f".to_string(), 0);
+            use emulator_8086_lib::{Label, LabelType};
+            ctx.label_map.insert("x".to_string(), Label::new(LabelType::DATA, 0, 0));
+            ctx.label_map.insert("y".to_string(), Label::new(LabelType::DATA, 8, 1));
+            ctx.label_map.insert("l".to_string(), Label::new(LabelType::CODE, 20, 0));
+            ctx.label_map.insert("start".to_string(), Label::new(LabelType::CODE, 30, 1));
             match mach.step_fast(0, &mut ctx, &text) { ("PANIC", _) => "panic", ("ERR", _) => "err", _ => "ok" }
         }
     }
